@@ -594,8 +594,16 @@ class ParamCase:
         vocab = CLIFF if clifford else VOCAB
         slots = ["p"] * n_par_gates + ["f"] * n_fixed
         rng.shuffle(slots)
+        self.perm = None
         if mode == "linear":
             self.n_in = rng.randint(1, 4)
+            if n_par_gates >= 2 and rng.random() < 0.25:
+                # a one-to-one mapping with coefficient 1 whose gates consume the parameters in another order than they
+                # were declared ("trivial" in every respect but the order)
+                self.perm = list(range(n_par_gates))
+                while self.perm == sorted(self.perm):
+                    rng.shuffle(self.perm)
+                self.n_in = n_par_gates
         gi = 0
         for s in slots:
             if s == "f":
@@ -609,7 +617,9 @@ class ParamCase:
                 ids = [rng.randint(1, 3) for _ in qs]
             else:
                 qs, ids = [rng.randrange(n)], []
-            if mode == "linear":
+            if mode == "linear" and self.perm is not None:
+                fn = {self.perm[gi]: (None if rng.random() < 0.5 else 1.0)}
+            elif mode == "linear":
                 r = rng.random()
                 if r < 0.25:
                     fn = {rng.randrange(self.n_in): None}  # bare Parameter
